@@ -166,6 +166,12 @@ def run_falsifier(ctx, check_types):
         cmps = (focus[i][1] if i < len(focus) else None) or common.cmps_choice(rng)
         job = common.gen_job(rng)
         job["preamble"] = None
+        if i >= len(focus) and i % 12 == 0:
+            # class names that coincide only after conversion, under every way of (not) passing the unicode option
+            from .. import gen as _gen
+            inputs = [("Root", [_gen.gen_name_clash(rng)])]
+            job["omitDefaults"] = rng.random() < 0.6
+            job["convertUnicode"] = True if job["omitDefaults"] else rng.random() < 0.7
         try:
             hit, skip = check_case(inputs, cmps, job, registry, check_types)
         except (ZeroDivisionError, stages.TooCostly):
